@@ -1,5 +1,5 @@
 (** C13/Proofs.v — the property theorems of C13, assembled from Facts (printer), Tree/Vis (stage 1) and Sim (stage 2). *)
-From EV Require Import C13.Model C13.Facts C13.Tree C13.Vis C13.Sim C13.Corr.
+From EV Require Import C13.Model C13.Facts C13.Names C13.Tree C13.Vis C13.Sim C13.Corr.
 Local Open Scope N_scope.
 
 (** the reference resolver answers exactly at the name uses, in source order *)
@@ -97,6 +97,8 @@ Theorem printer_positions_exact :
   (forall els, tlen (pr_elifs els) = len_elifs els) /\
   (forall b, tlen (pr_block b) = len_block b).
 Proof. exact len_ok. Qed.
+
+Definition name_text_injective := Names.name_text_inj.
 
 (** non-vacuity: shadowing, [local x = x], a duplicate name in one [local], a numeric for whose header names the
     loop variable, a closure in a for header, repeat-until with an empty body and with a local, a method *)
